@@ -364,6 +364,9 @@ struct conf_node_string *conf_register_string(struct conf_node_object *parent, e
     struct conf_node_string *cnode;
 
     cnode = conf_register_node(parent, name, CONF_STRING, sizeof(*cnode));
+    /* A cached parse of another subtype means nothing for this one. */
+    if (cnode->subtype != subtype)
+        memset(&cnode->parsed, 0, sizeof(cnode->parsed));
     cnode->subtype = subtype;
     cnode->def_value = def_value;
     conf_parse_string_value(cnode);
@@ -743,6 +746,10 @@ static void conf_parse_entry(struct conf_parse *parse, struct conf_node_object *
             node = conf_parse_get_child(parent, name, CONF_STRING, sizeof(*node));
             xfree(node->value);
             node->value = string;
+            /* Nodes created by the file are plain strings; remember the
+             * parse so that reloading the same text is not a change.
+             */
+            node->parsed.p_string = string;
             /* Leave the '}' for the enclosing object's loop. */
             if ((ch == '}') && (parent != &parse->root))
                 return;
